@@ -173,3 +173,305 @@ Proof.
     apply sig_structure_data_ext; [|exact I]. rewrite Ep, Hp. reflexivity. }
   rewrite X. cbn [bind]. rewrite Esg, Hsg. reflexivity.
 Qed.
+
+(* byte level, untagged and tagged *)
+Lemma tag_generic_msgs :
+  Forall (fun ty => (tag_of ty < p64)%N /\ tag_of ty <> 2%N /\ tag_of ty <> 3%N)
+         ["CoseSign1"; "CoseSign"; "CoseMac0"; "CoseMac"; "CoseEncrypt0"; "CoseEncrypt"]%string.
+Proof. repeat constructor; try (intro H; vm_compute in H; discriminate H). Qed.
+Lemma tag_generic ty :
+  In ty ["CoseSign1"; "CoseSign"; "CoseMac0"; "CoseMac"; "CoseEncrypt0"; "CoseEncrypt"]%string ->
+  (tag_of ty < p64)%N /\ tag_of ty <> 2%N /\ tag_of ty <> 3%N.
+Proof. intros H. exact (proj1 (Forall_forall _ _) tag_generic_msgs ty H). Qed.
+
+Ltac tag_side := apply tag_generic; cbn [In]; tauto.
+
+Corollary sign1_roundtrip_bytes :
+  forall (st : sign1) (aad : bytes) (signer : closure1) (tbs sg : bytes) (m : sign1) (v : value) (b : bytes)
+         (m' : sign1) (R : Type) (verifier : bytes -> bytes -> R),
+    Sign1_tbs_data st aad = Ok tbs -> signer tbs = Some sg ->
+    s1_prot m = s1_prot st -> s1_payload m = s1_payload st -> s1_sig m = sg ->
+    CoseSign1_to_value m = Ok v -> wire_ok v ->
+    to_vec CoseSign1_to_value m = Ok b -> from_slice CoseSign1_from_value b = Ok m' ->
+    Sign1_verify_signature m' aad verifier = Ok (verifier sg tbs).
+Proof.
+  intros st aad signer tbs sg m v b m' R verifier Htbs Hs Hp Hpl Hsg He W Hb Hd.
+  eapply sign1_sign_then_verify; eauto. eapply roundtrip_untagged; eauto.
+Qed.
+
+Corollary sign1_roundtrip_tagged_bytes :
+  forall (st : sign1) (aad : bytes) (signer : closure1) (tbs sg : bytes) (m : sign1) (v : value) (b : bytes)
+         (m' : sign1) (R : Type) (verifier : bytes -> bytes -> R),
+    Sign1_tbs_data st aad = Ok tbs -> signer tbs = Some sg ->
+    s1_prot m = s1_prot st -> s1_payload m = s1_payload st -> s1_sig m = sg ->
+    CoseSign1_to_value m = Ok v -> wire_ok v ->
+    to_tagged_vec CoseSign1_to_value (tag_of "CoseSign1") m = Ok b ->
+    from_tagged_slice CoseSign1_from_value (tag_of "CoseSign1") b = Ok m' ->
+    Sign1_verify_signature m' aad verifier = Ok (verifier sg tbs).
+Proof.
+  intros st aad signer tbs sg m v b m' R verifier Htbs Hs Hp Hpl Hsg He W Hb Hd.
+  eapply sign1_sign_then_verify; eauto.
+  destruct (tag_generic "CoseSign1") as (A & B & C); [cbn [In]; tauto|].
+  eapply roundtrip_tagged; eauto.
+Qed.
+
+Corollary sign1_detached_roundtrip_bytes :
+  forall (st : sign1) (pl aad : bytes) (signer : closure1) (tbs sg : bytes) (m : sign1) (v : value) (b : bytes)
+         (m' : sign1) (R : Type) (verifier : bytes -> bytes -> R),
+    Sign1_tbs_detached_data st pl aad = Ok tbs -> signer tbs = Some sg ->
+    s1_prot m = s1_prot st -> s1_payload m = s1_payload st -> s1_sig m = sg ->
+    CoseSign1_to_value m = Ok v -> wire_ok v ->
+    to_vec CoseSign1_to_value m = Ok b -> from_slice CoseSign1_from_value b = Ok m' ->
+    Sign1_verify_detached_signature m' pl aad verifier = Ok (verifier sg tbs).
+Proof.
+  intros st pl aad signer tbs sg m v b m' R verifier Htbs Hs Hp Hpl Hsg He W Hb Hd.
+  eapply sign1_detached_sign_then_verify; eauto. eapply roundtrip_untagged; eauto.
+Qed.
+
+Corollary sign1_detached_roundtrip_tagged_bytes :
+  forall (st : sign1) (pl aad : bytes) (signer : closure1) (tbs sg : bytes) (m : sign1) (v : value) (b : bytes)
+         (m' : sign1) (R : Type) (verifier : bytes -> bytes -> R),
+    Sign1_tbs_detached_data st pl aad = Ok tbs -> signer tbs = Some sg ->
+    s1_prot m = s1_prot st -> s1_payload m = s1_payload st -> s1_sig m = sg ->
+    CoseSign1_to_value m = Ok v -> wire_ok v ->
+    to_tagged_vec CoseSign1_to_value (tag_of "CoseSign1") m = Ok b ->
+    from_tagged_slice CoseSign1_from_value (tag_of "CoseSign1") b = Ok m' ->
+    Sign1_verify_detached_signature m' pl aad verifier = Ok (verifier sg tbs).
+Proof.
+  intros st pl aad signer tbs sg m v b m' R verifier Htbs Hs Hp Hpl Hsg He W Hb Hd.
+  eapply sign1_detached_sign_then_verify; eauto.
+  destruct (tag_generic "CoseSign1") as (A & B & C); [cbn [In]; tauto|].
+  eapply roundtrip_tagged; eauto.
+Qed.
+
+(* connection to the builder *)
+Lemma create_signature_step : forall st aad f,
+  sign1_builder_step st (S1_create_signature aad f) =
+  (do tbs <- Sign1_tbs_data st aad; do sg <- call1 f tbs;
+   Ok (mkSign1 (s1_prot st) (s1_unprot st) (s1_payload st) sg)).
+Proof. reflexivity. Qed.
+Lemma try_create_signature_step : forall st aad f,
+  sign1_builder_step st (S1_try_create_signature aad f) =
+  (do tbs <- Sign1_tbs_data st aad; do sg <- call1 f tbs;
+   Ok (mkSign1 (s1_prot st) (s1_unprot st) (s1_payload st) sg)).
+Proof. reflexivity. Qed.
+Lemma create_detached_signature_step : forall st pl aad f,
+  sign1_builder_step st (S1_create_detached_signature pl aad f) =
+  (do tbs <- Sign1_tbs_detached_data st pl aad; do sg <- call1 f tbs;
+   Ok (mkSign1 (s1_prot st) (s1_unprot st) (s1_payload st) sg)).
+Proof. reflexivity. Qed.
+Lemma try_create_detached_signature_step : forall st pl aad f,
+  sign1_builder_step st (S1_try_create_detached_signature pl aad f) =
+  (do tbs <- Sign1_tbs_detached_data st pl aad; do sg <- call1 f tbs;
+   Ok (mkSign1 (s1_prot st) (s1_unprot st) (s1_payload st) sg)).
+Proof. reflexivity. Qed.
+
+Lemma call1_ok f x y : call1 f x = Ok y -> f x = Some y.
+Proof. unfold call1. destruct (f x); intros H; try discriminate. now injection H as ->. Qed.
+Lemma call2_ok f x a y : call2 f x a = Ok y -> f x a = Some y.
+Proof. unfold call2. destruct (f x a); intros H; try discriminate. now injection H as ->. Qed.
+Lemma call1_none f x : f x = None -> call1 f x = Err EEncode.
+Proof. unfold call1. now intros ->. Qed.
+Lemma call2_none f x a : f x a = None -> call2 f x a = Err EEncode.
+Proof. unfold call2. now intros ->. Qed.
+
+Lemma failing_creator_yields_no_message : forall st aad f tbs,
+  Sign1_tbs_data st aad = Ok tbs -> f tbs = None ->
+  sign1_builder_step st (S1_try_create_signature aad f) = Err EEncode.
+Proof. intros st aad f tbs H N. rewrite try_create_signature_step, H. cbn [bind]. now rewrite (call1_none _ _ N). Qed.
+Lemma failing_detached_creator_yields_no_message : forall st pl aad f tbs,
+  Sign1_tbs_detached_data st pl aad = Ok tbs -> f tbs = None ->
+  sign1_builder_step st (S1_try_create_detached_signature pl aad f) = Err EEncode.
+Proof. intros st pl aad f tbs H N. rewrite try_create_detached_signature_step, H. cbn [bind]. now rewrite (call1_none _ _ N). Qed.
+
+(* a successful creating step: the closure was called on the tbs bytes, and only the signature changed *)
+Lemma create_signature_step_ok st aad f m :
+  sign1_builder_step st (S1_create_signature aad f) = Ok m \/
+  sign1_builder_step st (S1_try_create_signature aad f) = Ok m ->
+  exists tbs sg, Sign1_tbs_data st aad = Ok tbs /\ f tbs = Some sg /\
+                 m = mkSign1 (s1_prot st) (s1_unprot st) (s1_payload st) sg.
+Proof.
+  rewrite create_signature_step, try_create_signature_step. intros [H|H]; bind_inv H; bind_inv H;
+    injection H as <-; eauto using call1_ok.
+Qed.
+
+Corollary sign1_builder_sign_then_verify :
+  forall (st : sign1) (aad : bytes) (signer : closure1) (m : sign1) (v : value) (m' : sign1)
+         (R : Type) (verifier : bytes -> bytes -> R),
+    sign1_builder_step st (S1_create_signature aad signer) = Ok m \/
+    sign1_builder_step st (S1_try_create_signature aad signer) = Ok m ->
+    CoseSign1_to_value m = Ok v -> wire_ok v -> CoseSign1_from_value v = Ok m' ->
+    exists tbs sg, Sign1_tbs_data st aad = Ok tbs /\ signer tbs = Some sg /\ s1_sig m = sg /\
+                   Sign1_verify_signature m' aad verifier = Ok (verifier sg tbs).
+Proof.
+  intros st aad signer m v m' R verifier Hstep He W Hd.
+  apply create_signature_step_ok in Hstep as (tbs & sg & Ht & Hs & ->).
+  exists tbs, sg. repeat split; auto.
+  eapply (sign1_sign_then_verify st aad signer tbs sg); eauto.
+Qed.
+
+(* ---------- COSE_Mac0 ---------- *)
+Lemma mac0_encode_shape m v : CoseMac0_to_value m = Ok v ->
+  exists p u, protected_cbor_bstr (m0_prot m) = Ok p /\
+              v = VArray [p; u; opt_bytes_value (m0_payload m); VBytes (m0_tag m)].
+Proof. unfold CoseMac0_to_value. intros H. bind_inv H. bind_inv H. injection H as <-. eauto. Qed.
+
+Lemma mac0_decode_shape p u plv tgv m' :
+  CoseMac0_from_value (VArray [p; u; plv; tgv]) = Ok m' ->
+  protected_cbor_bstr (m0_prot m') = Ok p /\ bytes_or_nil plv = Ok (m0_payload m') /\ try_as_bytes tgv = Ok (m0_tag m').
+Proof.
+  unfold CoseMac0_from_value. cbn [try_as_array bind length]. rewrite arity_mac0. cbn [Nat.eqb negb].
+  intros H. bind_inv H. bind_inv H. bind_inv H. bind_inv H. injection H as <-.
+  cbn [m0_prot m0_payload m0_tag]. repeat split. eapply protected_retained; eassumption.
+Qed.
+
+Lemma mac0_roundtrip_fields m v m' :
+  CoseMac0_to_value m = Ok v -> CoseMac0_from_value v = Ok m' ->
+  protected_cbor_bstr (m0_prot m') = protected_cbor_bstr (m0_prot m) /\
+  m0_payload m' = m0_payload m /\ m0_tag m' = m0_tag m.
+Proof.
+  intros He Hd. destruct (mac0_encode_shape _ _ He) as (p & u & Hp & ->).
+  apply mac0_decode_shape in Hd as (Hp' & Hpl & Htg).
+  rewrite bytes_or_nil_opt in Hpl. cbn [try_as_bytes] in Htg.
+  repeat split; congruence.
+Qed.
+
+Theorem mac0_create_then_verify :
+  forall (st : mac0) (aad : bytes) (tagger : closure1) (tbm tg : bytes) (m : mac0) (v : value) (m' : mac0)
+         (R : Type) (verify : bytes -> bytes -> R),
+    Mac0_tbm st aad = Ok tbm -> tagger tbm = Some tg ->
+    m0_prot m = m0_prot st -> m0_payload m = m0_payload st -> m0_tag m = tg ->
+    CoseMac0_to_value m = Ok v -> wire_ok v ->
+    CoseMac0_from_value v = Ok m' ->
+    Mac0_verify_tag m' aad verify = Ok (verify tg tbm).
+Proof.
+  intros st aad tagger tbm tg m v m' R verify Htbm _ Hp Hpl Htg He _ Hd.
+  destruct (mac0_roundtrip_fields _ _ _ He Hd) as (Ep & Epl & Etg).
+  unfold Mac0_verify_tag.
+  assert (X : Mac0_tbm m' aad = Ok tbm).
+  { rewrite <- Htbm. unfold Mac0_tbm. rewrite Epl, Hpl. destruct (m0_payload st); [|reflexivity].
+    apply mac_structure_data_ext. rewrite Ep, Hp. reflexivity. }
+  rewrite X. cbn [bind]. rewrite Etg, Htg. reflexivity.
+Qed.
+
+Corollary mac0_roundtrip_bytes :
+  forall (st : mac0) (aad : bytes) (tagger : closure1) (tbm tg : bytes) (m : mac0) (v : value) (b : bytes)
+         (m' : mac0) (R : Type) (verify : bytes -> bytes -> R),
+    Mac0_tbm st aad = Ok tbm -> tagger tbm = Some tg ->
+    m0_prot m = m0_prot st -> m0_payload m = m0_payload st -> m0_tag m = tg ->
+    CoseMac0_to_value m = Ok v -> wire_ok v ->
+    to_vec CoseMac0_to_value m = Ok b -> from_slice CoseMac0_from_value b = Ok m' ->
+    Mac0_verify_tag m' aad verify = Ok (verify tg tbm).
+Proof.
+  intros st aad tagger tbm tg m v b m' R verify Htbm Hs Hp Hpl Htg He W Hb Hd.
+  eapply mac0_create_then_verify; eauto. eapply roundtrip_untagged; eauto.
+Qed.
+Corollary mac0_roundtrip_tagged_bytes :
+  forall (st : mac0) (aad : bytes) (tagger : closure1) (tbm tg : bytes) (m : mac0) (v : value) (b : bytes)
+         (m' : mac0) (R : Type) (verify : bytes -> bytes -> R),
+    Mac0_tbm st aad = Ok tbm -> tagger tbm = Some tg ->
+    m0_prot m = m0_prot st -> m0_payload m = m0_payload st -> m0_tag m = tg ->
+    CoseMac0_to_value m = Ok v -> wire_ok v ->
+    to_tagged_vec CoseMac0_to_value (tag_of "CoseMac0") m = Ok b ->
+    from_tagged_slice CoseMac0_from_value (tag_of "CoseMac0") b = Ok m' ->
+    Mac0_verify_tag m' aad verify = Ok (verify tg tbm).
+Proof.
+  intros st aad tagger tbm tg m v b m' R verify Htbm Hs Hp Hpl Htg He W Hb Hd.
+  eapply mac0_create_then_verify; eauto.
+  destruct (tag_generic "CoseMac0") as (A & B & C); [cbn [In]; tauto|].
+  eapply roundtrip_tagged; eauto.
+Qed.
+
+Lemma mac0_create_tag_step : forall st aad f,
+  mac0_builder_step st (M0_create_tag aad f) =
+  (do tbm <- Mac0_tbm st aad; do tg <- call1 f tbm; Ok (mkMac0 (m0_prot st) (m0_unprot st) (m0_payload st) tg)).
+Proof. reflexivity. Qed.
+Lemma mac0_try_create_tag_step : forall st aad f,
+  mac0_builder_step st (M0_try_create_tag aad f) =
+  (do tbm <- Mac0_tbm st aad; do tg <- call1 f tbm; Ok (mkMac0 (m0_prot st) (m0_unprot st) (m0_payload st) tg)).
+Proof. reflexivity. Qed.
+Lemma mac0_failing_creator_yields_no_message : forall st aad f tbm,
+  Mac0_tbm st aad = Ok tbm -> f tbm = None -> mac0_builder_step st (M0_try_create_tag aad f) = Err EEncode.
+Proof. intros st aad f tbm H N. rewrite mac0_try_create_tag_step, H. cbn [bind]. now rewrite (call1_none _ _ N). Qed.
+
+(* ---------- COSE_Encrypt0 ---------- *)
+Lemma encrypt0_encode_shape m v : CoseEncrypt0_to_value m = Ok v ->
+  exists p u, protected_cbor_bstr (e0_prot m) = Ok p /\ v = VArray [p; u; opt_bytes_value (e0_ct m)].
+Proof. unfold CoseEncrypt0_to_value. intros H. bind_inv H. bind_inv H. injection H as <-. eauto. Qed.
+
+Lemma encrypt0_decode_shape p u ctv m' :
+  CoseEncrypt0_from_value (VArray [p; u; ctv]) = Ok m' ->
+  protected_cbor_bstr (e0_prot m') = Ok p /\ bytes_or_nil ctv = Ok (e0_ct m').
+Proof.
+  unfold CoseEncrypt0_from_value. cbn [try_as_array bind length]. rewrite arity_encrypt0. cbn [Nat.eqb negb].
+  intros H. bind_inv H. bind_inv H. bind_inv H. injection H as <-.
+  cbn [e0_prot e0_ct]. repeat split. eapply protected_retained; eassumption.
+Qed.
+
+Lemma encrypt0_roundtrip_fields m v m' :
+  CoseEncrypt0_to_value m = Ok v -> CoseEncrypt0_from_value v = Ok m' ->
+  protected_cbor_bstr (e0_prot m') = protected_cbor_bstr (e0_prot m) /\ e0_ct m' = e0_ct m.
+Proof.
+  intros He Hd. destruct (encrypt0_encode_shape _ _ He) as (p & u & Hp & ->).
+  apply encrypt0_decode_shape in Hd as (Hp' & Hct).
+  rewrite bytes_or_nil_opt in Hct. repeat split; congruence.
+Qed.
+
+Theorem encrypt0_create_then_decrypt :
+  forall (st : encrypt0) (pt aad : bytes) (enc : closure2) (a ct : bytes) (m : encrypt0) (v : value) (m' : encrypt0)
+         (R : Type) (cipher : bytes -> bytes -> R),
+    enc_structure_data EncCoseEncrypt0 (e0_prot st) aad = Ok a -> enc pt a = Some ct ->
+    e0_prot m = e0_prot st -> e0_ct m = Some ct ->
+    CoseEncrypt0_to_value m = Ok v -> wire_ok v ->
+    CoseEncrypt0_from_value v = Ok m' ->
+    Encrypt0_decrypt m' aad cipher = Ok (cipher ct a).
+Proof.
+  intros st pt aad enc a ct m v m' R cipher Ha _ Hp Hct He _ Hd.
+  destruct (encrypt0_roundtrip_fields _ _ _ He Hd) as (Ep & Ect).
+  unfold Encrypt0_decrypt. rewrite Ect, Hct.
+  rewrite (enc_structure_data_ext _ (e0_prot m') (e0_prot st)) by (rewrite Ep, Hp; reflexivity).
+  rewrite Ha. reflexivity.
+Qed.
+
+Corollary encrypt0_roundtrip_bytes :
+  forall (st : encrypt0) (pt aad : bytes) (enc : closure2) (a ct : bytes) (m : encrypt0) (v : value) (b : bytes)
+         (m' : encrypt0) (R : Type) (cipher : bytes -> bytes -> R),
+    enc_structure_data EncCoseEncrypt0 (e0_prot st) aad = Ok a -> enc pt a = Some ct ->
+    e0_prot m = e0_prot st -> e0_ct m = Some ct ->
+    CoseEncrypt0_to_value m = Ok v -> wire_ok v ->
+    to_vec CoseEncrypt0_to_value m = Ok b -> from_slice CoseEncrypt0_from_value b = Ok m' ->
+    Encrypt0_decrypt m' aad cipher = Ok (cipher ct a).
+Proof.
+  intros st pt aad enc a ct m v b m' R cipher Ha Hs Hp Hct He W Hb Hd.
+  eapply encrypt0_create_then_decrypt; eauto. eapply roundtrip_untagged; eauto.
+Qed.
+Corollary encrypt0_roundtrip_tagged_bytes :
+  forall (st : encrypt0) (pt aad : bytes) (enc : closure2) (a ct : bytes) (m : encrypt0) (v : value) (b : bytes)
+         (m' : encrypt0) (R : Type) (cipher : bytes -> bytes -> R),
+    enc_structure_data EncCoseEncrypt0 (e0_prot st) aad = Ok a -> enc pt a = Some ct ->
+    e0_prot m = e0_prot st -> e0_ct m = Some ct ->
+    CoseEncrypt0_to_value m = Ok v -> wire_ok v ->
+    to_tagged_vec CoseEncrypt0_to_value (tag_of "CoseEncrypt0") m = Ok b ->
+    from_tagged_slice CoseEncrypt0_from_value (tag_of "CoseEncrypt0") b = Ok m' ->
+    Encrypt0_decrypt m' aad cipher = Ok (cipher ct a).
+Proof.
+  intros st pt aad enc a ct m v b m' R cipher Ha Hs Hp Hct He W Hb Hd.
+  eapply encrypt0_create_then_decrypt; eauto.
+  destruct (tag_generic "CoseEncrypt0") as (A & B & C); [cbn [In]; tauto|].
+  eapply roundtrip_tagged; eauto.
+Qed.
+
+Lemma encrypt0_create_ciphertext_step : forall st pt aad f,
+  encrypt0_builder_step st (E0_create_ciphertext pt aad f) =
+  (do a <- enc_structure_data EncCoseEncrypt0 (e0_prot st) aad; do ct <- call2 f pt a;
+   Ok (mkEncrypt0 (e0_prot st) (e0_unprot st) (Some ct))).
+Proof. reflexivity. Qed.
+Lemma encrypt0_try_create_ciphertext_step : forall st pt aad f,
+  encrypt0_builder_step st (E0_try_create_ciphertext pt aad f) =
+  (do a <- enc_structure_data EncCoseEncrypt0 (e0_prot st) aad; do ct <- call2 f pt a;
+   Ok (mkEncrypt0 (e0_prot st) (e0_unprot st) (Some ct))).
+Proof. reflexivity. Qed.
+Lemma encrypt0_failing_creator_yields_no_message : forall st pt aad f a,
+  enc_structure_data EncCoseEncrypt0 (e0_prot st) aad = Ok a -> f pt a = None ->
+  encrypt0_builder_step st (E0_try_create_ciphertext pt aad f) = Err EEncode.
+Proof. intros st pt aad f a H N. rewrite encrypt0_try_create_ciphertext_step, H. cbn [bind]. now rewrite (call2_none _ _ _ N). Qed.
